@@ -14,7 +14,7 @@ use serde_json::{json, Value};
 pub struct Case {
     pub presence: usize, // 0 tool+base, 1 tool, 2 base, 3 none, 4 moved base + tool, 5 tool+base under a parallelogram (J2 drives J3), 6 tool + base whose body includes a post beside the robot (not symmetric about J1)
     pub layout: usize,
-    pub safety: usize, // 0 touch, 1 3 cm, 2 3 cm with the pairs (J1, J6) and (J2, J6) exempt (NEVER_COLLIDES)
+    pub safety: usize, // 0 touch, 1 3 cm, 2 3 cm with the pairs (J1, J6) and (J2, J6) exempt (NEVER_COLLIDES), 3 collision checking switched off (only the limits clause is judged)
     pub limits: usize, // 0 wide, 1 tight
     pub initial: Joints,
     pub delta: [f64; 6],
@@ -44,6 +44,8 @@ fn cell_for(c: &Case) -> CellDesc {
     };
     cell.safety = if c.safety == 0 {
         SafetyDesc::touch(0)
+    } else if c.safety == 3 {
+        SafetyDesc::touch(2)
     } else if c.safety == 2 {
         SafetyDesc { to_env: 0.03, to_robot: 0.03, special: vec![((0, 5), rs_opw_kinematics::collisions::NEVER_COLLIDES), ((5, 1), rs_opw_kinematics::collisions::NEVER_COLLIDES)], mode: 0 }
     } else {
@@ -81,6 +83,19 @@ pub fn eval(c: &Case, pools: bool) -> Result<(Vec<(String, String)>, String), &'
         3 => (std::array::from_fn(|i| c.initial[i] + 0.5 * c.delta[i]), std::array::from_fn(|i| c.initial[i] + c.delta[i])),
         _ => (std::array::from_fn(|i| c.initial[i] - c.delta[i]), std::array::from_fn(|i| c.initial[i] + c.delta[i])),
     };
+    if c.safety == 3 {
+        // checking switched off: whether collisions are still looked at is not fixed by the statement; that every offered
+        // vector is a single-joint replacement within the limits is
+        let mut fails = Vec::new();
+        let got = robot.non_colliding_offsets(&c.initial, &from, &to);
+        for g in &got {
+            if arc_member6(&cell.limits.from, &cell.limits.to, &cell.inner_joints(g), 1e-9) == ArcVerdict::Outside && arc_member6(&cell.limits.from, &cell.limits.to, g, 1e-9) == ArcVerdict::Outside {
+                fails.push(("C14/illegal-offered/checking-off".to_string(), format!("offered {g:?} although it violates the joint limits (collision checking switched off)")));
+                break;
+            }
+        }
+        return Ok((fails, format!("checking-off:offered{}", got.len())));
+    }
     let mut fails = Vec::new();
     let mut want: Vec<Joints> = Vec::new();
     let mut classes = [0usize; 3]; // offered, illegal, colliding
@@ -184,7 +199,7 @@ pub fn run(ctx: &Ctx) -> Report {
     let mags = [0.35, 1.3, 2.2, 2.9, 0.8, 1.8];
     let n_delta = if thorough { 72 } else { 24 };
     let layouts = [0usize, 2, 3, 9, 10, 20];
-    let sizes = [7, layouts.len(), 3, 2, initials.len(), n_delta];
+    let sizes = [7, layouts.len(), 4, 2, initials.len(), n_delta];
     let n = par::product(&sizes);
     let mut rep = par::run(n, |idx, r| {
         let mut ix = [0usize; 6];
@@ -195,6 +210,10 @@ pub fn run(ctx: &Ctx) -> Report {
         let c = Case { presence: ix[0], layout: layouts[ix[1]], safety: ix[2], limits: ix[3], initial: initials[ix[4]], delta, shape: if (idx / 3) % 2 == 0 { 0 } else { 1 + (idx as usize / 6) % 3 } };
         // the table with exempt pairs on the cells with everything and with nothing attached
         if c.safety == 2 && !(c.presence == 0 || c.presence == 3) {
+            return;
+        }
+        // checking switched off: the free cell only, tight limits (so that some candidates are illegal)
+        if c.safety == 3 && !(c.layout == 0 && c.limits == 1 && c.presence <= 1) {
             return;
         }
         match eval(&c, idx % 8 == 0) {
@@ -225,12 +244,12 @@ pub fn run(ctx: &Ctx) -> Report {
         rep.machinery_errors.push("no candidate blocked only by the tool meeting a link before the moved joint".into());
     }
     rep.traces_validated = rep.transitions;
-    rep.rule = "synthetic cell (with/without base and tool, moved base, parallelogram J2->J3 on top, base body with a post beside the robot) x environments x safety {touch, 3 cm, 3 cm with (J1, J6) and (J2, J6) exempt} x limits {wide, tight} x collision-free initial \
+    rep.rule = "synthetic cell (with/without base and tool, moved base, parallelogram J2->J3 on top, base body with a post beside the robot) x environments x safety {touch, 3 cm, 3 cm with (J1, J6) and (J2, J6) exempt, checking switched off (limits clause only)} x limits {wide, tight} x collision-free initial \
                 postures x from/to = initial -+ delta (half of the cases: from == to on one side of the initial value, or both on the same side) with per-joint magnitudes {0.35,0.8,1.3,1.8,2.2,2.9} (moving a joint into free space, self-collision, the base, \
                 the environment or out of limits); oracle: the 12 single-joint candidates kept iff arc membership accepts them and the full collides() \
                 of the same robot reports them free, compared as multisets; every 8th case re-run in rayon pools of 1, 2, 4, 8, 16 threads; \
                 signature = (offered, illegal, colliding)".into();
-    rep.set("axes", json!({"presence": 7, "layouts": layouts.len(), "safety": 3, "limits": 2, "initials": initials.len(), "delta_vectors": n_delta}));
+    rep.set("axes", json!({"presence": 7, "layouts": layouts.len(), "safety": 4, "limits": 2, "initials": initials.len(), "delta_vectors": n_delta}));
     rep.assumptions.push("the full collision check used as reference is tied to the brute-force pair oracle by C10".into());
     rep
 }
